@@ -3263,6 +3263,12 @@ func (p *Posix) DeleteObject(ctx context.Context, input *s3.DeleteObjectInput) (
 				if err != nil {
 					return nil, fmt.Errorf("remove obj version: %w", err)
 				}
+				// metadata stores that write by path keep the attributes
+				// of the removed version (e.g. its delete marker flag)
+				err = p.meta.DeleteAttributes(bucket, object)
+				if err != nil {
+					return nil, fmt.Errorf("remove obj version attributes: %w", err)
+				}
 
 				ents, err := os.ReadDir(versionPath)
 				if errors.Is(err, fs.ErrNotExist) {
@@ -3349,6 +3355,10 @@ func (p *Posix) DeleteObject(ctx context.Context, input *s3.DeleteObjectInput) (
 				if err != nil {
 					return nil, fmt.Errorf("remove obj version %w", err)
 				}
+				err = p.meta.DeleteAttributes(versionPath, srcVersionId)
+				if err != nil {
+					return nil, fmt.Errorf("remove obj version attributes: %w", err)
+				}
 
 				p.removeParents(filepath.Join(p.versioningDir, bucket), filepath.Join(genObjVersionKey(object), *input.VersionId))
 
@@ -3369,6 +3379,10 @@ func (p *Posix) DeleteObject(ctx context.Context, input *s3.DeleteObjectInput) (
 			}
 			if err != nil {
 				return nil, fmt.Errorf("delete object: %w", err)
+			}
+			err = p.meta.DeleteAttributes(versionPath, *input.VersionId)
+			if err != nil {
+				return nil, fmt.Errorf("delete object version attributes: %w", err)
 			}
 
 			p.removeParents(filepath.Join(p.versioningDir, bucket), filepath.Join(genObjVersionKey(object), *input.VersionId))
